@@ -113,6 +113,13 @@ Theorem C12_interleaving_safe_n : forall ls t,
 Proof. exact interleaving_safe_n. Qed.
 Print Assumptions C12_interleaving_safe_n.
 
+(* a release refused by a full pool is the same path without its Rec event: still accepted (so each path theorem
+   also covers the variants of its path under a full pool) *)
+Theorem C12_refused_release_safe : forall a o b,
+  accepted (a ++ Rec o :: b) -> (forall e, In e b -> obj e <> o) -> accepted (a ++ b).
+Proof. exact refused_release_safe. Qed.
+Print Assumptions C12_refused_release_safe.
+
 (* in particular any number of library paths (lib_path: the thirteen path shapes above, each on distinct objects)
    running concurrently satisfy the property as stated *)
 Theorem C12_lib_paths_interleaved_safe : forall ps t,
